@@ -296,3 +296,66 @@ Theorem C13_all_guarded_machine :
     (all_finished (fst cfg) = true /\ meq (snd cfg) (exec (concat phs) m)) \/ (exists cfg', step cfg cfg').
 Proof. exact all_guarded_machine. Qed.
 Print Assumptions C13_all_guarded_machine.
+
+(* ---- PASS LEVEL, ARBITRARY NESTING DEPTH ------------------------------------------------------------------
+   Input programs are trees (any nesting of scf.for / scf.if, plain ops with inert body ops); [flatl]
+   is their pre-order op list (what the pass walks: the model of the walk runs on it), [outl] the
+   program tree of the pass output.  For every ordered pair (X, U) in the SameLevel class
+   ([clsl_top]: wherever X occurs, at any depth, either only plain ops follow it in its block up to
+   an op U it must be synchronised with — forward —, or its block is an scf.for body, only plain ops
+   follow it and it must be synchronised with a plain op U of that body — back-edge —, or, in the
+   outermost block, U does not occur behind it) the output tree is guarded, hence X and U are
+   separated by a barrier on EVERY path.  Blocks that are scf.if branches are covered for the
+   forward case only (the reverse pair then fails [clsl_top]): the F19b variant. *)
+From Snax Require Import Model.C13Tree Proofs.C13TreeProofs.
+
+Theorem C13_tree_pass_guarded :
+  forall p0 T X U, clsl_top (flatl p0 false 0 T) X U T = true ->
+  guardedl_top X U (outl (barriers (flatl p0 false 0 T)) T) = true.
+Proof. exact tree_pass_guarded. Qed.
+Print Assumptions C13_tree_pass_guarded.
+
+Theorem C13_tree_pass_path_safe :
+  forall p0 T X U, clsl_top (flatl p0 false 0 T) X U T = true ->
+  forall o, scanb X U false (rrunl o (outl (barriers (flatl p0 false 0 T)) T) []) <> None.
+Proof. exact tree_pass_path_safe. Qed.
+Print Assumptions C13_tree_pass_path_safe.
+
+(* the whole program: if every conflicting DM/compute pair of it is a SameLevel pair (decidable
+   [sl_program], a predicate on the INPUT and the modelled barrier positions), the pass output is
+   all_guarded: on every path every phase is conflict free, every interleaving computes the memory
+   of the program order *)
+Theorem C13_tree_pass_all_guarded :
+  forall p0 T, sl_program p0 T = true -> all_guarded (outl (barriers (flatl p0 false 0 T)) T) = true.
+Proof. exact tree_pass_all_guarded. Qed.
+Print Assumptions C13_tree_pass_all_guarded.
+
+Theorem C13_tree_pass_drf :
+  forall p0 T, sl_program p0 T = true ->
+  forall o ss m,
+  let prog := outl (barriers (flatl p0 false 0 T)) T in
+  Forall2 schedule_of (map (filter specific) (split_phases [] (rrunl o prog []))) ss ->
+  meq (exec (concat ss) m) (exec (concat (map (filter specific) (split_phases [] (rrunl o prog [])))) m).
+Proof. exact tree_pass_drf. Qed.
+Print Assumptions C13_tree_pass_drf.
+
+(* non-vacuity: a three-level nest with a branch:
+     alloc ; for i { if c { k } ; for j { copy a->b ; generic b->c ; for l { generic c->d (own body op) } } } ; ret
+   copy/generic of the j-body are a SameLevel pair (forward barrier + barrier before the j-yield); the
+   generic in the l-loop shares %c with the generic of the j-body: cross-level, so the whole program is
+   NOT in the class, while the program without the innermost loop is *)
+Example C13_tree_nonvacuous :
+  let cp := mkN 6 BDM [100; 101] [] in let g1 := mkN 7 BCompute [101; 102] [] in
+  let inner := [CLeaf cp []; CLeaf g1 [mkN 8 BOther [] [200]]] in
+  let T := [CLeaf (mkN 1 BOther [] [101]) [];
+            CFor (mkN 2 BOther [] []) [CIf (mkN 3 BOther [] []) [CLeaf (mkN 4 BOther [] []) []] [];
+                                       CFor (mkN 5 BOther [] []) inner (mkN 9 BOther [] [])] (mkN 10 BOther [] []);
+            CLeaf (mkN 11 BOther [] []) []] in
+  let T2 := [CFor (mkN 2 BOther [] [])
+               [CFor (mkN 5 BOther [] []) (inner ++ [CFor (mkN 12 BOther [] []) [CLeaf (mkN 13 BDM [102; 103] []) []] (mkN 14 BOther [] [])])
+                     (mkN 9 BOther [] [])] (mkN 10 BOther [] [])] in
+  sl_program 0 T = true /\ barriers (flatl 0 false 0 T) = [9; 7] /\
+  clsl_top (flatl 0 false 0 T) 6 7 T = true /\ clsl_top (flatl 0 false 0 T) 7 6 T = true /\
+  sl_program 0 T2 = false.
+Proof. cbv zeta. repeat split; vm_compute; reflexivity. Qed.
+Print Assumptions C13_tree_nonvacuous.
